@@ -38,6 +38,7 @@ type Fam struct {
 	Tiers string
 	Count func(tier string) int
 	Make  func(tier string, i int) *zzvrt.Scenario
+	Early bool // small family that runs BEFORE the scenarios of its property (a tree that makes the big scenarios explode must not keep the shard's time budget from reaching it)
 }
 
 var families []Fam
@@ -137,6 +138,12 @@ func main() {
 		if *deadline > 0 {
 			dl = t0.Add(time.Duration(*deadline) * time.Second)
 		}
+		for _, f := range families {
+			if !f.Early || f.Prop != *prop || (*tier == "quick" && !strings.Contains(f.Tiers, "q")) || (*only != "" && !strings.Contains(f.Name, *only)) {
+				continue
+			}
+			res.Scenarios = append(res.Scenarios, runFamily(f, *tier, si, sn, dl, -1))
+		}
 		for _, s := range registry {
 			if s.Prop != *prop || (*tier == "quick" && !strings.Contains(s.Tiers, "q")) {
 				continue
@@ -155,7 +162,7 @@ func main() {
 			res.Scenarios = append(res.Scenarios, e.Stats)
 		}
 		for _, f := range families {
-			if f.Prop != *prop || (*tier == "quick" && !strings.Contains(f.Tiers, "q")) {
+			if f.Early || f.Prop != *prop || (*tier == "quick" && !strings.Contains(f.Tiers, "q")) {
 				continue
 			}
 			if *only != "" && !strings.Contains(f.Name, *only) {
